@@ -378,6 +378,17 @@ class LocalStorageBackend(StorageBackend):
 
     def delete_file(self, path: str) -> None:
         full_path = self._resolve_path(path)
+        # _resolve_path follows symlinks. If the entry named by `path` is itself
+        # a symlink (an alias of another file of the table), deleting must
+        # remove that ENTRY, never the file it points to: GC treats an
+        # unreferenced alias as an orphan while its target may be live.
+        leaf = os.path.basename(path.rstrip("/"))
+        if leaf not in ("", ".", ".."):
+            parent = os.path.dirname(path.rstrip("/"))
+            entry = os.path.join(self._resolve_path(parent) if parent.strip("/") else self._real_base_path(), leaf)
+            if os.path.islink(entry):
+                os.remove(entry)
+                return
         if os.path.exists(full_path):
             os.remove(full_path)
 
